@@ -167,7 +167,7 @@ def examine(s):
     """Run the real escape / compile / select on identifier s.  Returns the event record (strings, not yet
     code points) with `problems`: list of (kind, selector, text) - everything C10 does not admit."""
     sv, bs4 = _G['sv'], _G['bs4']
-    sp = s.replace('\x00', '�')
+    sp = s.replace('\x00', '\ufffd')
     ev = {'s': s, 'esc': '', 'exc': '', 'ids': [], 'classes': [], 'attrs': [], 'clean': True, 'sel': True,
           'problems': [], 'calls': 0}
     pr = ev['problems']
@@ -291,7 +291,7 @@ def _work_b1(chunk):
     out = []       # (s cps, kind, css, text)
     drift = []
     ncases = ncalls = 0
-    samp = None
+    samps = []
     for st in chunk:
         seen = set()
         for s_cp, e_cp in zip(st['c'], st['e']):
@@ -307,9 +307,11 @@ def _work_b1(chunk):
                 drift.append({'s': show(s_cp), 'escape': asc(ev['esc']), 'cssom': asc(common.st(e_cp))})
             for kind, css, text in ev['problems'][:3]:
                 out.append((s_cp, kind, css, text))
-            samp = asc({'s': show(s_cp), 'spec_escape': common.st(e_cp), 'escape': ev['esc'],
-                        'ids': ev['ids'], 'clean': ev['clean'], 'sel': ev['sel']})
-    return out, drift, ncases, ncalls, samp
+            h = ((sum((i + 3) * c for i, c in enumerate(s_cp)) + 977 * len(s_cp) + 131) * 2654435761) % 1000003
+            if h % 499 == 0 and len(samps) < 4:
+                samps.append(asc({'s': show(s_cp), 'spec_escape': common.st(e_cp), 'escape': ev['esc'],
+                                  'ids': ev['ids'], 'clean': ev['clean'], 'sel': ev['sel'], 'h': h}))
+    return out, drift, ncases, ncalls, samps
 
 
 def group_of(s_cp):
@@ -346,38 +348,59 @@ class B1:
             self.buf = []
 
     def finish(self):
+        """Everything reported is chosen by content (smallest strings first), never by the order in which TLC's
+        workers happened to emit the states, so that a run is reproducible."""
         self.flush()
         chk = self.chk
         per_group = {}
-        for k, p in enumerate(self.pending):
+        kept = {}          # group -> list of (sort key, s_cp, kind, css, text), bounded
+        drifts = []
+        samples = []
+        ndrift = 0
+        cap = 400
+        for p in self.pending:
             try:
-                out, drift, ncases, ncalls, samp = p.get(timeout=900)
+                out, drift, ncases, ncalls, samps = p.get(timeout=900)
             except mp.TimeoutError:
                 chk.machinery('%s: a replay worker did not finish in 900 s' % self.label)
                 self.pool.terminate()
                 return
             chk.count(ncalls, traces=ncases)
             chk.add_distinct(ncases)
-            if samp and k % max(1, len(self.pending) // 4) == 0:
-                samp['cfg'] = self.label
-                chk.sample(samp, cap=6)
-            for d in drift:
-                d['cfg'] = self.label
-                d['what'] = 'escape(s) is not the CSSOM serialization'
-                chk.drift.append(d)
+            samples += samps
+            drifts += drift
+            ndrift += len(drift)
+            if len(drifts) > 4000:
+                drifts = sorted(drifts, key=lambda d: (len(d['s']), d['s']))[:200]
             for s_cp, kind, css, text in out:
                 g = '%s (%s)' % (kind, group_of(s_cp))
                 per_group[g] = per_group.get(g, 0) + 1
-                if per_group[g] > 400:      # keep the report bounded; the count is kept below
-                    continue
+                lst = kept.setdefault(g, [])
+                lst.append(((len(s_cp), s_cp), s_cp, kind, css, text))
+                if len(lst) > 4 * cap:
+                    lst.sort(key=lambda r: r[0])
+                    del lst[cap:]
+        self.pool.close()
+        self.pool.join()
+        for samp in sorted(samples, key=lambda d: (d['h'], d['s']))[:4]:
+            del samp['h']
+            samp['cfg'] = self.label
+            chk.sample(samp, cap=8)
+        for d in sorted(drifts, key=lambda d: (len(d['s']), d['s']))[:200]:
+            d['cfg'] = self.label
+            d['what'] = 'escape(s) is not the CSSOM serialization'
+            chk.drift.append(d)
+        for g in sorted(kept):
+            for _, s_cp, kind, css, text in sorted(kept[g], key=lambda r: r[0])[:cap]:
                 chk.violation('%s|%s|%s' % (self.label, kind, show(s_cp)),
                               '%s s=[%s] selector %r: %s' % (kind, show(s_cp), css, text),
                               {'cfg': self.label, 'group': g, 's': s_cp, 'selector_text': css, 'kind': kind,
                                'observed': text})
-        self.pool.close()
-        self.pool.join()
+        if ndrift:
+            chk.notes.setdefault('drift_total', {})[self.label] = ndrift
         if per_group:
-            chk.notes.setdefault('violations_by_group', {})[self.label] = per_group
+            chk.notes.setdefault('violations_by_group', {})[self.label] = dict(sorted(per_group.items()))
+            chk.notes.setdefault('violations_total', {})[self.label] = sum(per_group.values())
         if self.nstates == 0:
             chk.machinery('%s: TLC emitted no states' % self.label)
 
